@@ -16,7 +16,7 @@ _ENV.setdefault("UBSAN_SYMBOLIZER_PATH", "/usr/bin/llvm-symbolizer-14")
 
 class RunRec:
     __slots__ = ("seed", "index", "verdict", "vclass", "digest", "sh", "nthr", "ctr", "sigs", "states", "trans", "detail", "sample", "sched", "noise",
-                 "flavour", "cache", "crashed", "exe", "engine")
+                 "flavour", "cache", "crashed", "exe", "engine", "chunk_i0", "base")
 
     def __init__(self, seed, index):
         self.seed = seed
@@ -39,6 +39,8 @@ class RunRec:
         self.crashed = False
         self.exe = None
         self.engine = None
+        self.chunk_i0 = None
+        self.base = None
 
 
 def _strip_fn(fn):
@@ -217,9 +219,11 @@ class Batch:
         self.infra_errors = []
         self.per_run_timeout = per_run_timeout
 
-    def _on_rec(self, rec):
+    def _on_rec(self, rec, i0=None):
         rec.flavour = self.flavour
         rec.cache = self.cache
+        rec.chunk_i0 = i0
+        rec.base = self.base
         with self.lock:
             self.recs.append(rec)
 
@@ -231,9 +235,10 @@ class Batch:
                 return
             while cnt > 0:
                 cmd = [self.exe, "batch", self.engine, str(self.base), str(i0), str(cnt), self.tier]
-                rc, last, leftover, tail, done = run_worker(cmd, self._on_rec, timeout=self.per_run_timeout * 4 + 60)
+                first = i0
+                rc, last, leftover, tail, done = run_worker(cmd, lambda r: self._on_rec(r, first), timeout=self.per_run_timeout * 4 + 60)
                 if leftover is not None:
-                    self._on_rec(leftover)
+                    self._on_rec(leftover, first)
                     nxt = leftover.index + 1
                     cnt -= (nxt - i0)
                     i0 = nxt
@@ -273,3 +278,16 @@ def exec_plan(exe, plan_text, twice=False, timeout=300):
 def gen_plan(exe, engine, seed, tier):
     r = subprocess.run([exe, "gen", engine, str(seed), tier], stdout=subprocess.PIPE, stderr=subprocess.STDOUT, text=True, env=_ENV)
     return r.stdout
+
+
+def run_history(exe, engine, base, i0, idx, tier, timeout=900):
+    """Re-executes runs i0..idx of a batch in ONE fresh process and returns the record of run idx (or None)."""
+    recs = []
+    cmd = [exe, "batch", engine, str(base), str(i0), str(idx - i0 + 1), tier]
+    rc, last, leftover, tail, done = run_worker(cmd, recs.append, timeout=timeout)
+    if leftover is not None:
+        recs.append(leftover)
+    for r in recs:
+        if r.index == idx:
+            return r
+    return None
